@@ -19,6 +19,7 @@ props! {
     "c04" c04,
     "c05" c05,
     "c06" c06,
+    "c07" c07,
     "c08" c08,
     "c09" c09,
     "c13" c13,
